@@ -352,7 +352,7 @@ def pLSCF_mpe(
                 fn_at_ord_ii = fn_at_ord_ii[~np.isnan(fn_at_ord_ii)]
 
                 if fn_at_ord_ii.shape[0] == len(sel_freq):
-                    check = np.isclose(fn_at_ord_ii, sel_freq, rtol=rtol)
+                    check = np.isclose(fn_at_ord_ii, sel_freq, rtol=rtol, atol=0)
                 else:
                     pass
                 if ii == aa.shape[1] - 1:
@@ -380,7 +380,7 @@ def pLSCF_mpe(
         elif isinstance(order, int):
             sel = np.nanargmin(np.abs(Fn_pol[:, order] - fj))
             fns_at_ord_ii = Fn_pol[:, order][sel]
-            check = np.isclose(fns_at_ord_ii, fj, rtol=rtol)
+            check = np.isclose(fns_at_ord_ii, fj, rtol=rtol, atol=0)
             if not check.any():
                 logger.warning("Could not find any values")
                 order_out = order
@@ -395,7 +395,7 @@ def pLSCF_mpe(
         elif isinstance(order, list):
             sel = np.nanargmin(np.abs(Fn_pol[:, order[ii]] - fj))
             fns_at_ord_ii = Fn_pol[:, order[ii]][sel]
-            check = np.isclose(fns_at_ord_ii, fj, rtol=rtol)
+            check = np.isclose(fns_at_ord_ii, fj, rtol=rtol, atol=0)
             if not check.any():
                 logger.warning("Could not find any values")
                 order_out[ii] = order[ii]
